@@ -628,6 +628,7 @@ def reference_nodes(model, state, cc, ds=None):
             T = ref.weibull_terms(ev_t, w, *[cc._np(q) for q in ps[:4]], shifts)
             out[node] = dict(want=_sum_ind(T["nll"]), scale=_sum_ind(np.where(np.isfinite(T["nll"]), np.abs(T["nll"]), 0.0)),
                              f32=is32(data, *ps), fam="weibull", skip=None,
+                             extra_atol=_sum_ind(cc._weibull_atol(cc.TOL32 if is32(data, *ps) else cc.TOL64, cc._np(ps[1]), T)),  # conditioning of (t/nu)^rho
                              at_tau_only=_sum_ind((T["observed"] & T["at_tau"] & (np.broadcast_to(cc._np(ps[1]), T["nll"].shape) <= 1.0)).astype(float)) > 0,
                              underflow=_sum_ind((T["observed"] & T["after"] & (np.abs(T["log_pow"]) > cc.POW_UNDERFLOW)).astype(float)) > 0)
             if "survival_shifts" in pn and "sources" in dag and "zeta" in dag:
@@ -685,6 +686,8 @@ def _combine(out, parts):
         if out[p].get("at_tau_only") is not None:
             d["at_tau_only"] = out[p]["at_tau_only"]
             d["underflow"] = out[p]["underflow"]
+        if out[p].get("extra_atol") is not None:
+            d["extra_atol"] = d.get("extra_atol", 0.0) + out[p]["extra_atol"]
     return d
 
 
@@ -697,6 +700,8 @@ def _total(d):
     if d.get("at_tau_only") is not None:
         t["at_tau_only"] = np.asarray(bool(d["at_tau_only"].any()))
         t["underflow"] = np.asarray(bool(d["underflow"].any()))
+    if d.get("extra_atol") is not None:
+        t["extra_atol"] = np.asarray(np.sum(d["extra_atol"]))
     return t
 
 
@@ -735,7 +740,8 @@ def compare_node(ctx, cc, case, name, got_t, d):
             return False
     j = judged & np.isfinite(want)
     with np.errstate(all="ignore"):
-        bad = j & ((np.abs(got - want) > atol + rtol * np.maximum(scale, np.abs(want))) | ~np.isfinite(got))
+        extra = np.nan_to_num(np.asarray(d.get("extra_atol", 0.0), dtype=np.float64), nan=0.0, posinf=np.inf)
+        bad = j & ((np.abs(got - want) > atol + extra + rtol * np.maximum(scale, np.abs(want))) | ~np.isfinite(got))
     ctx.count("state_entries_judged", int(j.sum()))
     if bad.any() and d.get("underflow") is not None:
         under = bad & np.broadcast_to(d["underflow"], want.shape)
